@@ -47,6 +47,9 @@ def check(run):
         crules.alloc_rules(run, "C01-slots", ast)
         run.rule("C01-model", "augment_methods: run-time methods/definitions mirror the registrations one to one (function pointers, parameter classes from the own id lists in order, error cells, (method, parameter) pairs)", floor=8)
         crules.model_rules(run, "C01-model", ast)
+        crules.idem_rules(run, "C01-model", ast)
+        # indirect policies: the table of addresses must point at the classes' own static v-table pointers (valid across updates)
+        c09.ast_rules(run, r6, ast, table=False)
     run.assumptions += ["v-table pointer acquisition (Policy::dynamic_vptr, virtual_ptr::_vptr) is an opaque leaf here; its content is decided by C09 / C15",
                         "the tables themselves (which definition sits in which cell) are values computed by update: not decided"]
     return run.finish(level="other", explanation="Symbolic summary (LLVM IR after mem2reg, library calls substituted) of the function pointer that "
